@@ -12,12 +12,17 @@ C10 — "Requests that the transport runs concurrently are safe and serialisable
   or that would re-take the mutex while holding it, breaks this theorem.
 * `unlocked_witness`: without the mutex two read-modify-write handlers lose an update — the
   discipline is necessary, not decoration.
+* `structure_locks`: the per-structure locks used by the worker goroutines INSIDE one request (LRU cache of
+  live syntax trees, directory cache, file-exist cache, first-phase result map, the analysis mutex) are,
+  in the regenerated table `Gen.lockScopes`, held for the whole method body or released as often as taken;
+  the three LRU methods reached from the worker pools hold their lock for the whole body.
 What the model cannot exhibit: the Go memory model and an actual crash ("concurrent map read and
 map write"); the harness supplies that witness with the race detector (DESIGN.md §6 C10).
 -/
 import LuaHelper.Proofs.Sync
 import LuaHelper.Gen.Handlers
 import LuaHelper.Gen.Sites
+import LuaHelper.Gen.Locks
 namespace LuaHelper.C10
 open LuaHelper.Sync
 
@@ -87,6 +92,17 @@ theorem handlers_cover :
       m ∈ Gen.handlers.map (·.method) := by
   decide
 #print axioms handlers_cover
+
+/-- Every per-structure mutex is used either for the whole method body (`Lock(); defer Unlock()` first) or in
+    balanced Lock/Unlock pairs; the one reviewed exception locks conditionally for the first phase only.
+    The LRU cache read by sibling worker goroutines locks the whole body of Get, Set and Remove. -/
+theorem structure_locks :
+    (∀ e ∈ Gen.lockScopes, e.2.2 = "whole" ∨ e.2.2 = "paired1" ∨ e.2.2 = "paired2" ∨
+        e = ("check:AllProject.GetFirstFileStuct", "a.fileStructMutex", "other")) ∧
+    (∀ m ∈ ["check/common:LRUCache.Get", "check/common:LRUCache.Set", "check/common:LRUCache.Remove"],
+        (m, "lru.cacheMutex", "whole") ∈ Gen.lockScopes) := by
+  decide
+#print axioms structure_locks
 
 theorem dispatcher_concurrency : Gen.concurrency = 4 := by decide
 #print axioms dispatcher_concurrency
